@@ -2,11 +2,12 @@ SPECIFICATION Spec
 CONSTANTS
   W = 4
   Anns = {"both"}
-  Sizes = {1, 2}
+  Sizes = {2}
   MaxFaults = 1
   MaxInject = 1
   FaultKinds = {"Lose", "Drop", "Dup", "Flip", "WrongSid", "WrongFrom", "Swap", "EarlyClose"}
-  InjectKinds = {"from", "sid"}
+  InjectKinds = {"from"}
+  InjectElems = {"data", "close"}
   Bursts = {}
   MaxHist = 99
 CONSTRAINT Bound
